@@ -163,6 +163,10 @@ func (s *MonitoredItemService) CreateMonitoredItems(sc *uasc.SecureChannel, r ua
 	if err != nil {
 		return nil, err
 	}
+	sess := s.SubService.srv.Session(req.RequestHeader)
+	if sess == nil {
+		return nil, ua.StatusBadSessionIDInvalid
+	}
 	s.Mu.Lock()
 	defer s.Mu.Unlock()
 
@@ -181,7 +185,6 @@ func (s *MonitoredItemService) CreateMonitoredItems(sc *uasc.SecureChannel, r ua
 		return nil, errors.New("sub doesn't exist")
 	}
 
-	sess := s.SubService.srv.Session(req.RequestHeader)
 	if sub.Session.AuthTokenID.String() != sess.AuthTokenID.String() {
 		return nil, errors.New("not your subscription, bro")
 	}
@@ -270,12 +273,14 @@ func (s *MonitoredItemService) SetMonitoringMode(sc *uasc.SecureChannel, r ua.Re
 	if err != nil {
 		return nil, err
 	}
+	sess := s.SubService.srv.Session(req.RequestHeader)
+	if sess == nil {
+		return nil, ua.StatusBadSessionIDInvalid
+	}
 	s.Mu.Lock()
 	defer s.Mu.Unlock()
 
 	results := make([]ua.StatusCode, len(req.MonitoredItemIDs))
-
-	sess := s.SubService.srv.Session(req.RequestHeader)
 
 	for i := range req.MonitoredItemIDs {
 		id := req.MonitoredItemIDs[i]
@@ -331,11 +336,13 @@ func (s *MonitoredItemService) DeleteMonitoredItems(sc *uasc.SecureChannel, r ua
 	if err != nil {
 		return nil, err
 	}
+	sess := s.SubService.srv.Session(req.RequestHeader)
+	if sess == nil {
+		return nil, ua.StatusBadSessionIDInvalid
+	}
 
 	s.Mu.Lock()
 	defer s.Mu.Unlock()
-
-	sess := s.SubService.srv.Session(req.RequestHeader)
 
 	results := make([]ua.StatusCode, len(req.MonitoredItemIDs))
 	for i := range req.MonitoredItemIDs {
